@@ -321,6 +321,123 @@ def line_comment_classifier(R, ctx):
     R.ob(rid, "classifier|openers", not bad, ctx.where(fn), "every opener shape is classified as the Lua lexer reads it" if not bad else "; ".join(bad[:3]))
 
 
+def braces_kept_apart(R, ctx):
+    """An interpolated value that starts with a table: `{` `{` must never become the escape `{{` (remove_spaces relies on the generator)."""
+    import itertools
+    from .. import peval
+    from ..peval import make, Enum, some
+    from . import c13
+    rid = "C18.braces"
+    lib = ctx.lib
+    R.rule(rid, "each generator, evaluated from its typed tree on an interpolated string whose value segment starts with a table constructor, "
+                "for every combination of trivia on the segment's `{` (nothing / space / comment after it) and on the table's `{` (nothing / "
+                "empty whitespace / space / comment before it) x (nothing / space / comment after it): the text written never contains `{{` "
+                "(Luau reads `{{` inside a backtick string as an escaped brace, so the value would become text)")
+    N, T = "nodes::", "nodes::token::"
+    IS = N + "expressions::interpolated_string::"
+    need = [T + "Token", T + "Trivia", IS + "ValueSegment", IS + "ValueSegmentTokens", IS + "InterpolatedStringTokens", N + "expressions::table::TableTokens"]
+    if not R.require(rid, "anchor:node-types", all(a in lib.adts for a in need), "", "token / segment node types not found"):
+        return
+
+    def trivia(text, kind):
+        return make(lib, T + "Trivia", {"position": Enum(T + "Position", "Any", {"content": text}), "kind": Enum(T + "TriviaKind", kind, {})})
+
+    def tok(text, lead=(), trail=()):
+        return make(lib, T + "Token", {"position": Enum(T + "Position", "Any", {"content": text}), "leading_trivia": list(lead), "trailing_trivia": list(trail)})
+    LEAD = {"none": (), "empty": (("", "Whitespace"),), "space": ((" ", "Whitespace"),), "comment": (("--[[c]]", "Comment"),)}
+    TRAIL = {"none": (), "space": ((" ", "Whitespace"),), "comment": (("--[[c]]", "Comment"),)}
+    n_gen = 0
+    for G, new, nargs in c13.generators(ctx):
+        we, fin = c13.trait_fn(lib, G, "write_expression"), c13.trait_fn(lib, G, "into_string")
+        if we is None or fin is None:
+            continue
+        n_gen += 1
+        bad, n = [], 0
+        for (ln, lead), (tn, trail), (sn, seg) in itertools.product(LEAD.items(), TRAIL.items(), TRAIL.items()):
+            table = make(lib, N + "expressions::table::TableExpression", {"entries": [], "tokens": some(make(lib, N + "expressions::table::TableTokens", {
+                "opening_brace": tok("{", [trivia(*t) for t in lead], [trivia(*t) for t in trail]), "closing_brace": tok("}"), "separators": []}))})
+            vs = make(lib, IS + "ValueSegment", {"value": Enum(c13.EXPR, "Table", {"0": table}), "tokens": some(make(lib, IS + "ValueSegmentTokens", {
+                "opening_brace": tok("{", (), [trivia(*t) for t in seg]), "closing_brace": tok("}")}))})
+            node = Enum(c13.EXPR, "InterpolatedString", {"0": make(lib, IS + "InterpolatedStringExpression", {
+                "segments": [Enum(IS + "InterpolationSegment", "Value", {"0": vs})],
+                "tokens": some(make(lib, IS + "InterpolatedStringTokens", {"opening_tick": tok("`"), "closing_tick": tok("`")}))})})
+            pe = peval.PEval(lib, ctx.an)
+            try:
+                gen = pe.call_fn(new, list(nargs))
+                pe.call_fn(we, [gen, node])
+                text = pe.call_fn(fin, [gen])
+            except peval.OutOfFuel:
+                text = None
+            n += 1
+            if not isinstance(text, str) or "{{" in text or "{" not in text:
+                bad.append(("segment `{` followed by %s, table `{` preceded by %s and followed by %s" % (sn, ln, tn), text if isinstance(text, str) else pe.unknown_reasons[:2]))
+        R.ob(rid, "%s|no-double-brace" % G.split("::")[-1], not bad, ctx.where(we), "%d trivia layouts keep the braces apart" % n if not bad else "%s: written %r" % bad[0])
+    R.require(rid, "floor:generators", n_gen >= 3, "", "%d generators evaluated" % n_gen)
+
+
+def comment_after_minus(R, ctx):
+    """A comment kept next to a `-` must not absorb it: `a - --[[c]] b` without spaces is `a---[[c]]b`, a line comment that swallows `b`."""
+    import itertools
+    from .. import peval
+    from ..peval import make, Enum, some, NONE
+    from . import c13
+    rid = "C18.comment-glue"
+    lib = ctx.lib
+    R.rule(rid, "each generator that writes trivia, evaluated from its typed tree on `a - b` and `- b` whose `-` token is followed by "
+                "(nothing / a space) and whose right operand carries (a long comment / a line comment + newline / a space and a comment) "
+                "before it: in the text written, the character before the comment is never `-` (otherwise the operator becomes part of a "
+                "`---...` line comment and everything up to the end of the line is lost)")
+    N, T = "nodes::", "nodes::token::"
+    BIN, UN, ID = N + "expressions::binary::BinaryExpression", N + "expressions::unary::UnaryExpression", N + "identifier::Identifier"
+    if not R.require(rid, "anchor:node-types", all(a in lib.adts for a in (BIN, UN, ID, T + "Token")), "", "node types not found"):
+        return
+
+    def trivia(text, kind):
+        return make(lib, T + "Trivia", {"position": Enum(T + "Position", "Any", {"content": text}), "kind": Enum(T + "TriviaKind", kind, {})})
+
+    def tok(text, lead=(), trail=()):
+        return make(lib, T + "Token", {"position": Enum(T + "Position", "Any", {"content": text}), "leading_trivia": list(lead), "trailing_trivia": list(trail)})
+
+    def ident(name, lead=()):
+        return Enum(c13.EXPR, "Identifier", {"0": make(lib, ID, {"name": name, "token": some(tok(name, lead))})})
+    AFTER_OP = {"none": (), "space": ((" ", "Whitespace"),)}
+    BEFORE = {"long": (("--[[c]]", "Comment"),), "line": (("--c", "Comment"), ("\n", "Whitespace")), "space+long": ((" ", "Whitespace"), ("--[[c]]", "Comment"))}
+    n_gen = 0
+    for G, new, nargs in c13.generators(ctx):
+        we, fin = c13.trait_fn(lib, G, "write_expression"), c13.trait_fn(lib, G, "into_string")
+        if we is None or fin is None:
+            continue
+        bad, n, wrote_comment = [], 0, False
+        for (an, after), (bn, before), form in itertools.product(AFTER_OP.items(), BEFORE.items(), ("binary", "unary")):
+            right = ident("b", [trivia(*t) for t in before])
+            optok = some(tok("-", (), [trivia(*t) for t in after]))
+            if form == "binary":
+                node = Enum(c13.EXPR, "Binary", {"0": make(lib, BIN, {"operator": Enum(N + "expressions::binary::BinaryOperator", "Minus", {}), "left": ident("a"), "right": right, "token": optok})})
+            else:
+                node = Enum(c13.EXPR, "Unary", {"0": make(lib, UN, {"operator": Enum(N + "expressions::unary::UnaryOperator", "Minus", {}), "expression": right, "token": optok})})
+            pe = peval.PEval(lib, ctx.an)
+            try:
+                gen = pe.call_fn(new, list(nargs))
+                pe.call_fn(we, [gen, node])
+                text = pe.call_fn(fin, [gen])
+            except peval.OutOfFuel:
+                text = None
+            n += 1
+            if not isinstance(text, str):
+                bad.append(("%s, `-` followed by %s, operand preceded by %s" % (form, an, bn), pe.unknown_reasons[:2]))
+                continue
+            i = text.find("--c") if bn == "line" else text.find("--[[c]]")
+            if i < 0:
+                continue        # this generator does not write comments
+            wrote_comment = True
+            if i > 0 and text[i - 1] == "-":
+                bad.append(("%s, `-` followed by %s, operand preceded by %s" % (form, an, bn), text))
+        if wrote_comment or bad:
+            n_gen += 1
+            R.ob(rid, "%s|minus-stays-an-operator" % G.split("::")[-1], not bad, ctx.where(we), "%d layouts: the comment never starts right after `-`" % n if not bad else "%s: written %r" % bad[0])
+    R.require(rid, "floor:generators", n_gen >= 1, "", "%d trivia-writing generators evaluated" % n_gen)
+
+
 def run(R, ctx):
     R.explanation = (
         "Static coverage proof over the AST type graph (derived from the ADT facts): every slot that can hold a Token is "
@@ -343,3 +460,5 @@ def run(R, ctx):
     shift_only_at_start(R, ctx)
     closer_checked(R, ctx)
     line_comment_classifier(R, ctx)
+    braces_kept_apart(R, ctx)
+    comment_after_minus(R, ctx)
